@@ -368,11 +368,36 @@ func (c14) Run(c *Ctx, i int) CaseResult {
 		if r.Intn(5) == 0 {
 			parts = append(parts, "__typename")
 		}
+		body := strings.Join(parts, " ")
+		var rootFrags []string
+		switch r.Intn(5) {
+		case 0:
+			// the meta fields reached through fragments on the root type, nested: a named fragment that holds one
+			// part itself and the rest in a second fragment
+			if len(parts) >= 2 {
+				body = "...RootOuter"
+				rootFrags = append(rootFrags, "fragment RootOuter on Query { "+parts[0]+" ...RootInner }", "fragment RootInner on Query { "+strings.Join(parts[1:], " ")+" }")
+			} else {
+				body = "...RootOuter"
+				rootFrags = append(rootFrags, "fragment RootOuter on Query { ...RootInner }", "fragment RootInner on Query { "+parts[0]+" }")
+			}
+		case 1:
+			if len(parts) >= 2 {
+				body = "... on Query { " + parts[0] + " ... { " + strings.Join(parts[1:], " ") + " } }"
+			} else {
+				body = "... { ... on Query { " + parts[0] + " } }"
+			}
+		case 2:
+			if len(parts) >= 2 {
+				body = parts[0] + " ...RootOuter"
+				rootFrags = append(rootFrags, "fragment RootOuter on Query { ... on Query { "+strings.Join(parts[1:], " ")+" } }")
+			}
+		}
 		query = "query"
 		if len(g.vdefs) > 0 {
 			query += "(" + strings.Join(g.vdefs, ", ") + ")"
 		}
-		query += " { " + strings.Join(parts, " ") + " } " + strings.Join(g.frags, " ")
+		query += " { " + body + " } " + strings.Join(append(g.frags, rootFrags...), " ")
 		id = fmt.Sprintf("gen:%d", i)
 	}
 	res := CaseResult{ID: id, Key: fmt.Sprint(spec.SDLs, query, vars)}
@@ -413,6 +438,10 @@ func (c14) Run(c *Ctx, i int) CaseResult {
 	if eerr != nil {
 		bad("L0.intro", classifier, "a valid introspection query was answered with errors: "+firstLine(eerr.Error()), nil, nil)
 		return res
+	}
+	// L1: the plan of the introspection query against the planner model
+	if what, model, impl, perr2 := PlanCorrRaw(c, doc, f.Locations, nil, spec.Order, plans); perr2 == nil && what != "" {
+		bad("L1.plan", classifier, what, model, map[string]interface{}{"steps": impl, "plan": PlanText(plans)})
 	}
 	// the oracle evaluates with the effective values: what the request supplies, else the declared default
 	eff := map[string]interface{}{}
